@@ -32,7 +32,7 @@ LossConfs ==
   \cup {DgScript("new", <<Call("set_max_retries", mr)>>) : mr \in {0, 1}}
   \cup {DgScript("new", <<Call("set_read_timeout", rt)>>) : rt \in {10000, 70000}}
   \cup {S1("set_udp_payload_size", v) : v \in {-1, 0, 512, 1232, 4096, 65535}}
-  \cup {S1("set_recv_size", v) : v \in {512, 2000, 65535}}
+  \cup {S1("set_recv_size", v) : v \in {12, 512, 1999, 2000, 65535, 100000}}
   \cup {S1("set_max_parallel", v) : v \in {0, 1, 2, 1000, 1001}}
 
 MaxMr == LET ms == {DgRun(sc).mr : sc \in Confs} IN CHOOSE m \in ms : \A x \in ms : x <= m
@@ -45,9 +45,11 @@ RECURSIVE MapOut(_)
 MapOut(sq) == IF sq = <<>> THEN <<>> ELSE <<OutJson(Head(sq))>> \o MapOut(Tail(sq))
 \* t: ticks between submission and completion (-1 while pending).  The
 \* specification completes a request no later than (1 + max_retries) * read_timeout.
-\* eff: what the getters of the configuration object say
+\* eff: what the getters of the configuration object say; rbuf: the receive
+\* buffer offered to the socket
 Proj(s) == [sent |-> s.sent, done |-> MapOut(s.done), waiting |-> s.ph = "recv",
-            t |-> IF s.ph = "done" THEN s.waited ELSE -1, eff |-> s.conf.eff]
+            t |-> IF s.ph = "done" THEN s.waited ELSE -1, eff |-> s.conf.eff,
+            rbuf |-> RecvBuf(s)]
 
 \* one datagram per class: the answer, an answer to another question, an
 \* answer with another ID / the previous attempt's ID, a header-only error,
